@@ -287,7 +287,7 @@ def work_cost(job):
     r = core.JobResult()
     pts = []
     for k in ks:
-        res = run_cost('cov', fmt, D.EXT_CLI, data * k, timeout=300)
+        res = run_cost('cov', fmt, D.EXT_CLI, PATTERNS[name](256 * k).encode() if name in RUN_PATTERNS else data * k, timeout=300)
         r.evaluations += 1
         if res.get('rc') != 0 or 'blocks' not in res:
             r.stats['cost run failed (crash: other checks; timeout: inconclusive)'] += 1
@@ -331,7 +331,12 @@ PATTERNS = {
     'path15-code-span-then-open-emph': lambda n: '`x` *a\n' * n,
     'path16-link-then-open-bracket': lambda n: '[x](y) [a\n' * n,
     'path17-strong-then-open-ul': lambda n: '**x** _a*\n' * n,
+    # one long run of emphasis delimiters (openers that can never be closed): repeated without a line break, so d^k is one run of 256 k characters
+    'path18-star-run': lambda n: 'a' + '*' * n + 'b\n',
+    'path19-underscore-run': lambda n: 'a ' + '_' * n + ' b\n',
+    'path20-mixed-delimiter-run': lambda n: '*_' * (n // 2),
 }
+RUN_PATTERNS = ('path18-star-run', 'path19-underscore-run')         # generated at size 256 k (one run), not as k copies of a 256-character unit
 
 
 def main():
